@@ -446,7 +446,7 @@ func (r *runner) dec(pkt []byte, what string) result {
 			h.Obs("%s ret=%s perr=%d n=%d %s", res.format, res.cls, res.perr, res.n, res.text)
 		}
 		if res.stale != "-" {
-			h.Viol("stale-batch-state", "%s packet %s delivers n=%d %s through the reused batch object but %s through a fresh parser: state of an earlier packet leaks", res.format, trunc(verifx.Hex(pkt)), res.n, trunc(res.text), trunc(res.stale))
+			h.Viol("stale-state-across-packets", "%s packet %s delivers n=%d %s through the reused parser+batch but %s through a fresh parser: decoding is not a function of the packet alone, state of an earlier packet leaks", res.format, trunc(verifx.Hex(pkt)), res.n, trunc(res.text), trunc(res.stale))
 		}
 		// amplification: no decoder may allocate more than a small multiple of the packet size (a 14 byte packet
 		// asking for gigabytes is how "fatal error: out of memory" happens on a machine with less memory than here)
@@ -1595,6 +1595,124 @@ func runTCPCase(h *verifx.H, r *verifx.Rng) {
 	}
 }
 
+// ------------------------------------------------------------------ packet sequences through one reused parser + batch
+
+// a metric of a LATER packet in a sequence: zero-valued scalars, empty strings / arrays, omitted fields, histogram
+// buckets with a zero value or a zero count (proto3 leaves all of these off the wire, so whatever the decoder does
+// not reset survives from the earlier, larger packet)
+func genMetricZeroish(r *verifx.Rng) metric {
+	var m metric
+	if r.Bool() {
+		m.Name = []byte([]string{"a", "m1", "x"}[r.Intn(3)])
+	}
+	for k, n := 0, r.Pick(3, 2, 1); k < n; k++ {
+		v := []byte{}
+		if r.Chance(1, 3) {
+			v = []byte("v")
+		}
+		m.Tags = append(m.Tags, [2][]byte{[]byte(strconv.Itoa(k)), v})
+	}
+	z := func() uint64 {
+		if r.Chance(3, 5) {
+			return 0
+		}
+		return math.Float64bits(float64(r.Range(1, 9)))
+	}
+	if r.Bool() {
+		m.Mask |= 1
+		m.Counter = z()
+	}
+	if r.Bool() {
+		m.Mask |= 16
+		if r.Chance(2, 5) {
+			m.Ts = uint32(r.Range(1, 100))
+		}
+	}
+	if r.Bool() {
+		m.Mask |= 2
+		for k, n := 0, r.Pick(2, 2, 1); k < n; k++ {
+			m.Value = append(m.Value, z())
+		}
+	}
+	if r.Bool() {
+		m.Mask |= 4
+		for k, n := 0, r.Pick(2, 2, 1); k < n; k++ {
+			m.Unique = append(m.Unique, uint64(r.Pick(3, 1))*uint64(r.Range(1, 5)))
+		}
+	}
+	if r.Chance(2, 3) {
+		m.Mask |= 8
+		for k, n := 0, r.Pick(1, 3, 2, 1); k < n; k++ {
+			m.Hist = append(m.Hist, [2]uint64{z(), z()})
+		}
+	}
+	return m
+}
+
+// an EARLIER packet: every slot filled with non-zero data
+func genMetricFull(r *verifx.Rng) metric {
+	m := metric{Mask: 31, Name: genString(r, 40), Counter: math.Float64bits(float64(r.Range(1, 99))), Ts: uint32(r.Range(1, 1 << 30))}
+	if len(m.Name) == 0 {
+		m.Name = []byte("full")
+	}
+	for k, n := 0, r.Range(2, 4); k < n; k++ {
+		m.Tags = append(m.Tags, [2][]byte{[]byte(strconv.Itoa(k)), []byte("val" + strconv.Itoa(r.Range(0, 99)))})
+	}
+	for k, n := 0, r.Range(2, 4); k < n; k++ {
+		m.Value = append(m.Value, math.Float64bits(float64(r.Range(1, 99))))
+		m.Unique = append(m.Unique, uint64(r.Range(1, 1 << 20)))
+		m.Hist = append(m.Hist, [2]uint64{math.Float64bits(float64(r.Range(1, 99))), math.Float64bits(float64(r.Range(1, 9)))})
+	}
+	return m
+}
+
+// the receivers (UDP.Serve, TCP.receiveLoop) push every packet of a socket through ONE parser and ONE
+// AddMetricsBatchBytes: what a packet decodes to must not depend on the packets before it
+func runSequenceCase(h *verifx.H, r *verifx.Rng, run *runner) {
+	n := r.Range(5, 9)
+	prev := r.Intn(5)
+	for k := 0; k < n; k++ {
+		var ms []metric
+		early := k < (n+1)/2
+		nm := r.Range(1, 2)
+		if early {
+			nm = r.Range(2, 4)
+		}
+		for j := 0; j < nm; j++ {
+			switch {
+			case early && r.Chance(3, 4):
+				ms = append(ms, genMetricFull(r))
+			case early:
+				mm := genMetric(r, true)
+				if len(mm.Name) > 300 {
+					mm.Name = []byte("long")
+				}
+				ms = append(ms, mm)
+			default:
+				ms = append(ms, genMetricZeroish(r))
+			}
+		}
+		f := prev
+		if r.Chance(1, 2) { // the same format twice in a row is what reuses the same slots
+			f = r.Intn(5)
+		}
+		prev = f
+		switch f {
+		case 0:
+			expectSame(h, "seq-tl", "tl", ms, run.dec(encTL(ms, 0), "seq-tl"))
+		case 1:
+			expectSame(h, "seq-msgpack", "msgpack", ms, run.dec(encMP(ms, &mpOpt{wideHdr: r.Intn(2), shuffle: r}), "seq-msgpack"))
+		case 2:
+			expectSame(h, "seq-pb", "pb", ms, run.dec(encPB(ms), "seq-pb"))
+		case 3:
+			expectSame(h, "seq-pb-hand", "pb", ms, run.dec(encPBHand(ms, &pbOpt{unpackedValue: r.Bool(), unpackedUnique: r.Bool(), splitPacked: r.Bool()}), "seq-pb-hand"))
+		default:
+			expectSame(h, "seq-json", "json", ms, run.dec(encJSON(ms), "seq-json"))
+		}
+	}
+	h.NonTrivial("packet-sequence")
+}
+
 // ------------------------------------------------------------------ cases
 
 func expectSame(h *verifx.H, what string, wantFmt string, want []metric, res result) {
@@ -1692,7 +1810,10 @@ func main() {
 			return
 		}
 		run.reset()
-		kind := r.Pick(12, 4, 4, 1)
+		kind := r.Pick(12, 4, 4, 1, 5)
+		if h.Mode == "seq" {
+			kind = 4
+		}
 		if h.Mode == "noise" {
 			kind = 2
 		}
@@ -1700,6 +1821,8 @@ func main() {
 			kind = 3
 		}
 		switch kind {
+		case 4:
+			runSequenceCase(h, r, run)
 		case 3:
 			if tcpHangs >= 2 && h.Only < 0 {
 				h.Stat("case.tcp-skipped-after-2-hangs", 1) // each hang costs the full deadline; two replays are enough
